@@ -76,14 +76,14 @@ class ASPAtom(ASPElement):
         if Utility.PRINT_WITH_FUNCTIONS:
             visited = []
             for attribute1 in self.attributes:
-                if attribute1 in visited:
+                if any(attribute1 is attribute for attribute in visited):
                     continue
                 visited.append(attribute1)
                 if attribute1.origin and attribute1.origin.name != self.name:
                     tmp_atom = ASPAtom(attribute1.origin.name, [ASPAttribute(attribute1.name, attribute1.get_value(),
                                                                              attribute1.origin.origin)])
                     for attribute2 in self.attributes:
-                        if attribute2 in visited:
+                        if any(attribute2 is attribute for attribute in visited):
                             continue
                         if attribute2.origin and attribute1.origin.name == attribute2.origin.name:
                             visited.append(attribute2)
